@@ -3,8 +3,6 @@
 EXTENDS Integers, Sequences
 \* constant definitions for the model-checking instances (functions cannot be written in a .cfg)
 One == {"A"}
-ParentOne == [a \in One |-> "none"]
-KidsNone1 == [a \in One |-> <<>>]
 MR0_1 == [a \in One |-> 0]
 MR1_1 == [a \in One |-> 1]
 MR2_1 == [a \in One |-> 2]
@@ -16,8 +14,26 @@ G_t1 == [t \in T2 |-> t = <<"env", "t1">>]     \* t1 = Poison, t2 = Stop
 G_all == [t \in T2 |-> TRUE]
 G_none == [t \in T2 |-> FALSE]
 AllKinds == {"Init", "Started", "user"}
+NoSucc1 == [a \in One |-> "none"]
+\* A and the successor B it spawns under its own id from its final Stopped handler
+Line == {"A", "B"}
+ParentLine == [a \in Line |-> "none"]
+KidsNoneL == [a \in Line |-> <<>>]
+RootA == {"A"}
+SuccAB == [a \in Line |-> IF a = "A" THEN "B" ELSE "none"]
+MR1_L == [a \in Line |-> 1]
+MR0_L == [a \in Line |-> 0]
+TgtA_L == [t \in T2 |-> "A"]
+SendA == {"A"}
+SendAB == {"A", "B"}
+ParentOne == [a \in One |-> "none"]
+KidsNone1 == [a \in One |-> <<>>]
+
 
 \* chain P -> C -> G
+NoSucc3c == [a \in {"P", "C", "G"} |-> "none"]
+NoSuccF == [a \in {"P", "C", "D"} |-> "none"]
+NoSucc2 == [a \in {"P", "C"} |-> "none"]
 Chain == {"P", "C", "G"}
 ParentChain == [a \in Chain |-> IF a = "C" THEN "P" ELSE IF a = "G" THEN "C" ELSE "none"]
 KidsChain == [a \in Chain |-> IF a = "P" THEN <<"C">> ELSE IF a = "C" THEN <<"G">> ELSE <<>>]
